@@ -56,6 +56,14 @@ def generic_main(mod, modname, pid, tier, seed, repo, t0):
     import tempfile
     dump_dir = tempfile.mkdtemp(prefix=f"symx_smt_{pid}_")
     dump_idx = set(range(0, len(tasks), max(1, len(tasks) // 6)))
+    # which package functions ran symbolically is recorded on a spread of tasks (the profiler slows a task several times)
+    kinds_seen, prof_idx = set(), {0, 1}
+    for i, p in enumerate(tasks):
+        kd = (p.get("kind"), p.get("solver"), p.get("computer"), p.get("part"), p.get("via"), p.get("what"), p.get("pred"),
+              str(p.get("key", "")).split("/")[0])
+        if kd not in kinds_seen and len(prof_idx) < 16:
+            kinds_seen.add(kd)
+            prof_idx.add(i)
     jobs = []
     for i, p in enumerate(tasks):
         o = dict(opts_base)
@@ -63,7 +71,7 @@ def generic_main(mod, modname, pid, tier, seed, repo, t0):
             o["dump_dir"] = dump_dir
         o["canary"] = i < n_canary or p.get("canary", False)
         o["xcheck"] = i in xs and not p.get("noxcheck")
-        o["profile"] = i < 2
+        o["profile"] = i in prof_idx
         o["xcheck_n"] = getattr(mod, "XCHECK_VECTORS", 3)
         jobs.append((modname, p, o))
     nproc = min(int(os.environ.get("VERIF_PROCS", "16")), max(1, len(jobs)))
